@@ -195,6 +195,11 @@ func runSelfTests(verif, repo, prop string, rep *Report) map[string]interface{} 
 			missed = append(missed, r.Name)
 		}
 	}
+	for _, r := range results {
+		if r.Skipped != "" {
+			fmt.Printf("SELFTEST-SKIPPED property=%s variant=%s (%s)\n", prop, r.Name, r.Skipped)
+		}
+	}
 	for _, m := range missed {
 		fmt.Printf("SELFTEST-MISS property=%s variant=%s (checker did not report the seeded change)\n", prop, m)
 	}
